@@ -144,8 +144,9 @@ class Gen:
             lambda ex: A.attr_doc(' docs'),
             lambda ex: A.attr_path(A.path([A.ident('inline')])),
             lambda ex: A.attr_list(A.path([A.ident('async_trait')]), [('P', '?', 'input'), ('I', 'Send', 'input')]),
+            lambda ex: A.attr_path(A.path([A.ident('fw'), A.ident('async_trait')])),
         ]
-        labels = ['async_trait', '::async_trait::async_trait', 'mockall::automock', 'allow(..)', 'doc', 'inline', 'async_trait(?Send)']
+        labels = ['async_trait', '::async_trait::async_trait', 'mockall::automock', 'allow(..)', 'doc', 'inline', 'async_trait(?Send)', 'fw::async_trait']
         if nested:
             alts.append(lambda ex: A.attr_list(A.path([A.ident('cfg')]), [('I', 'any', 'input'), ('G', '(', [], 'input')]))
             labels.append('cfg(any())')
@@ -328,7 +329,7 @@ class Gen:
     def param(self, key, j):
         A = self.A
         return A.enum('FnArg', 'Typed', A.node('PatType', attrs=self.attrs(key + '.attrs', self.B.max_param_attrs, nested=True),
-                                               pat=Obj('Box', None, [self.pattern(key + '.pat', ['pz', 'py', 'pb', 'pa', 'pe'][j % 5])]),
+                                               pat=Obj('Box', None, [self.pattern(key + '.pat', ['pz', 'py', '_pb', 'pa', 'pe'][j % 5])]),
                                                ty=Obj('Box', None, [self.lazy_type(key + '.ty')])))
 
     def inputs(self, key):
